@@ -328,7 +328,7 @@ class Models:
         A(r'^<(std::iter::)?Skip<(std::str::)?Chars<\'_>> as Iterator>::next$', self.m_chars_next)
         A(r'^<(std::iter::)?Skip<(std::str::)?Chars<\'_>> as IntoIterator>::into_iter$', lambda ex, c, a: a[0])
         A(r'^core::str::<impl str>::contains::<&str>$', self.m_contains_str)
-        A(r'^(alloc|std)::str::<impl str>::replace::<&str>$', self.m_str_replace)
+        A(r'^(alloc|std)::str::<impl str>::replace::<(&str|&std::string::String)>$', self.m_str_replace)
         A(r'^std::option::Option::<.*>::take$', self.m_opt_take)
         A(r'^std::option::Option::<.*>::is_some$', lambda ex, c, a: ex.deref(a[0]).variant == 'Some')
         A(r'^std::option::Option::<.*>::is_none$', lambda ex, c, a: ex.deref(a[0]).variant == 'None')
